@@ -187,7 +187,8 @@ Mutated mutate(const TypeOps& t, const Value& v, Tape& tp, int nmut, const Value
 }
 
 LibRead lib_read(const TypeOps& t, const Bytes& bytes, const std::map<int64_t, int64_t>& handles, Obj* into) {
-  ReaderBox r; r.open(t.has_handle ? R_Log : R_Ped, bytes); r.log.handles = handles;
+  // (table-bearing types: the call-counted PedanticBufferReader, so that a decoder that loops is reported, not waited for)
+  ReaderBox r; r.open(t.has_handle ? R_Log : (t.supports_reader(R_CPed) ? R_CPed : R_Ped), bytes); r.log.handles = handles;
   std::unique_ptr<Obj> own; if (!into) { own = t.make(); into = own.get(); }
   LibRead out; out.status = into->read(r); out.pos = r.position(); out.value = into->get(); out.resolved = r.log.resolved;
   return out;
@@ -203,11 +204,13 @@ std::string compare_with_reference(Ctx& c, const TypeOps& t, const Bytes& bytes,
   if (ref.dup_skipped_ids) { c.rep.exclude("duplicate unknown/deleted table id (no expectation stated)"); return ""; }
   if (!t.has_handle) {
     // the decoder's language does not depend on which buffer reader carries the bytes
-    ReaderBox rb; rb.open(R_Buf, bytes);
+    ReaderBox rb; rb.open(t.supports_reader(R_CBuf) ? R_CBuf : R_Buf, bytes);
     auto ob = t.make(); int sb = ob->read(rb);
+    if (sb == kNonTermination) return fmt("non-termination: Read via BufferReader exceeded the reader call budget; input %s [%s]", hex(bytes).substr(0, 200).c_str(), how.c_str());
     if ((sb == 0) != ref.ok) return fmt("accept-mismatch: library via BufferReader %s (%s), reference %s (%s at %zu); input %s [%s]", sb == 0 ? "accepts" : "rejects", err_name(sb), ref.ok ? "accepts" : "rejects", err_name(ref.err), ref.err_off, hex(bytes).substr(0, 200).c_str(), how.c_str());
     if (ref.ok && rb.position() != ref.consumed) return fmt("consumed-mismatch: BufferReader consumed %zu, reference %zu; input %s [%s]", rb.position(), ref.consumed, hex(bytes).substr(0, 200).c_str(), how.c_str());
   }
+  if (lib.status == kNonTermination) return fmt("non-termination: Read via PedanticBufferReader exceeded the reader call budget; input %s [%s]", hex(bytes).substr(0, 200).c_str(), how.c_str());
   if ((lib.status == 0) != ref.ok)
     return fmt("accept-mismatch: library %s (%s), reference %s (%s at %zu); input %s [%s]", lib.status == 0 ? "accepts" : "rejects", err_name(lib.status), ref.ok ? "accepts" : "rejects", err_name(ref.err), ref.err_off, hex(bytes).substr(0, 200).c_str(), how.c_str());
   if (ref.ok) {
@@ -336,7 +339,15 @@ std::string body_C02(Ctx& c, CaseIn& in) {
   }
   std::string how; for (auto& w : mu.what) how += (how.empty() ? "" : "; ") + w;
   std::vector<int> kinds;
-  for (int k : {R_Buf, R_Ped, R_BBuf, R_BPed, R_Log, R_BLog, R_CPed, R_CBuf}) if (t.supports_reader(k)) kinds.push_back(k);
+  // Table-bearing types are read through the call-counted wrappers instead of the bare buffer readers (same code paths
+  // in the library, plus a deterministic bound on the number of primitive calls), so that a decoder that never
+  // terminates is reported instead of hanging the check.
+  const bool counted = t.supports_reader(R_CPed);
+  for (int k : {R_CPed, R_CBuf, R_Buf, R_Ped, R_BBuf, R_BPed, R_Log, R_BLog}) {
+    if (!t.supports_reader(k)) continue;
+    if (counted && (k == R_Buf || k == R_Ped || k == R_BBuf || k == R_BPed)) continue;
+    kinds.push_back(k);
+  }
   DecodeOpts dopt; dopt.handles = &mu.handles;
   Decoded ref = ref_decode(*t.schema, mu.bytes, dopt);
   bool nontrivial = (!ref.ok && ref.nested_ok > 0) || (ref.ok && actual.kids.size() + actual.bytes.size() > 0) || mu.inflated_len || ref.inflated > 0;
@@ -569,8 +580,10 @@ std::string fuzz_one(Ctx& c, const TypeOps& t, bool is02, const uint8_t* data, s
   }
   if (t.unbounded || size == 0) return "";
   const Bytes& good_bytes = it->second.good_bytes;
-  static const int kinds_all[] = {R_Buf, R_Ped, R_BBuf, R_BPed, R_Log, R_BLog, R_CPed, R_CBuf};
-  std::vector<int> kinds; for (int k : kinds_all) if (t.supports_reader(k)) kinds.push_back(k);
+  static const int kinds_all[] = {R_CPed, R_CBuf, R_Buf, R_Ped, R_BBuf, R_BPed, R_Log, R_BLog};
+  const bool counted = t.supports_reader(R_CPed);
+  std::vector<int> kinds;
+  for (int k : kinds_all) { if (!t.supports_reader(k)) continue; if (counted && (k == R_Buf || k == R_Ped || k == R_BBuf || k == R_BPed)) continue; kinds.push_back(k); }
   int rk = kinds[data[0] % kinds.size()];
   const uint8_t* msg = data + 1; size_t n = size - 1;
   size_t lim = n;
